@@ -188,6 +188,11 @@ fn decl_strategy(id: u32) -> impl Strategy<Value = Decl> {
             };
             let mut tags: Vec<String> = tags.iter().map(|t| ["alpha", "beta"][*t as usize].to_string()).collect();
             tags.dedup();
+            // a third of the tagged declarations also carry a tag nobody else has, so that the set of
+            // tags in use differs from version to version
+            if !tags.is_empty() && (id + tags.len() as u32) % 3 == 0 {
+                tags.push(format!("only-{}", id));
+            }
             let doc_style = if doc.is_empty() { DocStyle::None } else { [DocStyle::TripleSlash, DocStyle::DocAttr, DocStyle::Block, DocStyle::TripleSlash][ds as usize].clone() };
             Decl {
                 id,
